@@ -34,6 +34,7 @@ pub struct OracleState {
     /// full rotation had spare capacity
     pub q_marks: Vec<(usize, usize)>,
     pub forced_seen_at: Option<u64>,
+    pub late_stops: u32,
 }
 
 impl OracleState {
@@ -59,6 +60,7 @@ impl OracleState {
             backoff_seen: false,
             q_marks: Vec::new(),
             forced_seen_at: None,
+            late_stops: 0,
         }
     }
 
@@ -111,6 +113,7 @@ pub fn gen_config(prop: &str, tier: Tier, rng: &mut Rng) -> Config {
         bitset_only: false,
         max_kills: 2,
         system_exit: false,
+        script_errors: true,
     };
     let lst = |rng: &mut Rng, uds_w: u64| -> Vec<Lst> {
         let n = if rng.chance(1, 3) { 2 } else { 1 };
@@ -125,6 +128,9 @@ pub fn gen_config(prop: &str, tier: Tier, rng: &mut Rng) -> Config {
             c.pause = rng.chance(1, 3);
             c.stop = rng.chance(1, 2);
             c.advance = c.stop;
+            // the ledger also holds across worker faults (a restarted worker must be stopped and
+            // must release what is queued at it like any other)
+            c.kills = rng.chance(1, 4);
         }
         "C02" | "C03" => {
             c.limit = rng.range(1, 4) as usize;
@@ -135,11 +141,23 @@ pub fn gen_config(prop: &str, tier: Tier, rng: &mut Rng) -> Config {
             }
             // pause/resume are not faults: the limit and the wake-up rule hold across them too
             c.pause = rng.chance(1, 4);
+            // service back-pressure (readiness flipping between Ok and Pending) must not disturb
+            // the accounting either
+            if rng.chance(1, 4) {
+                c.scripts = true;
+                c.script_errors = false;
+            }
+            // C03 also speaks about the workers that are left after a fault (C02 stops judging then)
+            if prop == "C03" {
+                c.kills = rng.chance(1, 5);
+            }
         }
         "C04" => {
             c.workers = rng.range(1, 4) as usize;
             c.max_conns = rng.range(4, 16) as usize;
             c.pause = rng.chance(1, 4);
+            // a restarted worker changes the order of the rotation list, not the rules
+            c.kills = rng.chance(1, 5);
             if rng.chance(1, 4) {
                 c.bitset_only = true;
                 c.max_actions = rng.range(20, 200) as usize;
@@ -163,6 +181,7 @@ pub fn gen_config(prop: &str, tier: Tier, rng: &mut Rng) -> Config {
         }
         "C06" => {
             c.workers = rng.range(1, 2) as usize;
+            c.shutdown_timeout_s = rng.range(0, 5);
             c.stop = true;
             c.advance = true;
             c.signals = rng.chance(1, 3);
@@ -985,7 +1004,16 @@ pub async fn drain_and_final(sim: &mut Sim) {
 fn final_c04(sh: &Rc<Shared>) {
     let log = sh.dispatch_log.borrow();
     let w = sh.cfg.workers;
-    for r in log.iter() {
+    // Saturation is judged on the fault-free prefix of the history only: after a worker fault the
+    // accounting is off by design (the connection that discovered the fault is forced onto a live
+    // worker even at its limit, and availability notices of the dead incarnation's connections
+    // still arrive under the same index) -- C02's own proviso, and C04 quantifies over fault-free
+    // histories. The rotation rules below keep applying.
+    let first_fault = sh.first_fault_dispatch.get();
+    for (n, r) in log.iter().enumerate() {
+        if n >= first_fault {
+            break;
+        }
         if r.target_in_progress_before >= sh.cfg.limit {
             sh.violate(Violation::new(
                 "dispatch-to-saturated",
@@ -1146,7 +1174,7 @@ pub fn required_probes(prop: &str, tier: Tier) -> Vec<&'static str> {
         "C01" => vec!["probe.queued_conn_released_on_shutdown", "probe.race_window_progress"],
         "C04" => vec!["probe.rr_window_checked", "probe.rr_window_from_quiescence", "probe.bitset_runs"],
         "C05" => vec!["probe.backoff_armed", "probe.per_connection_error_handled", "probe.commands_acknowledged", "cmd.pause", "cmd.resume"],
-        "C06" => vec!["probe.stop_completed", "probe.graceful_stop_with_connections", "probe.forced_stop_with_connections", "probe.forced_stop_judged", "probe.second_stop"],
+        "C06" => vec!["probe.stop_completed", "probe.graceful_stop_with_connections", "probe.forced_stop_with_connections", "probe.forced_stop_judged", "probe.second_stop", "probe.stop_future_dropped", "probe.stop_after_server_end", "probe.stop_window_progress"],
         "C07" => vec!["probe.call_after_ready_round", "probe.service_restarted", "probe.queue_order_checked"],
         "C08" => vec!["probe.send_failed_discovered", "probe.replacement_in_rotation", "probe.replacement_served"],
         _ => vec![],
